@@ -527,6 +527,17 @@ class Host(HostBase):
 
     # ---------------------------------------------------------------- binop
     def binop(self, op: str, a: AV, b: AV, node: Any = None, inplace: bool = False) -> AV:
+        if op == "Add" and isinstance(a, Source) and isinstance(b, Source):
+            # two pieces of abstract sequences glued together: if both are cut from the same sequence this is a
+            # rearrangement of it (a rotation, a swap of halves, ...), never its own order nor a uniform shuffle
+            ba, bb = a, b
+            while isinstance(ba.base, Source):
+                ba = ba.base
+            while isinstance(bb.base, Source):
+                bb = bb.base
+            if ba.base is bb.base or ba is bb:
+                return Source(ba.view, ba.base, list(ba.order) + list(a.order if a is not ba else []) + ["rearranged-by-concatenating-slices"], fresh=True, id=self.ctx.new_id(), depth=self.i.loop_depth)
+            raise self.unsupported(node, "concatenation of two different abstract sequences")
         if isinstance(a, PySet) and isinstance(b, PySet) and op in ("BitOr", "BitAnd", "Sub", "BitXor"):
             ka, kb = set(a.items), set(b.items)
             keys = {"BitOr": ka | kb, "BitAnd": ka & kb, "Sub": ka - kb, "BitXor": ka ^ kb}[op]
